@@ -280,6 +280,15 @@ def _guess_sender_key(
         recipient: Recipient[Key],
         key: ECKey | OKPKey | KeySet,
         use_random: bool = False) -> ECKey | OKPKey:
+    sender_key = _find_sender_key(recipient, key, use_random)
+    sender_key.check_use("enc")
+    return sender_key
+
+
+def _find_sender_key(
+        recipient: Recipient[Key],
+        key: ECKey | OKPKey | KeySet,
+        use_random: bool = False) -> ECKey | OKPKey:
     if isinstance(key, KeySet):
         headers = recipient.headers()
         skid = headers.get('skid')
